@@ -580,6 +580,17 @@ Definition hist_model (c : World.world * list op) : list value :=
                             [{'op': 'force_chain', 'chain': 0, 'picks': [0], 'recompute': True, 'delete': False}, {'op': 'flags', 'chain': 0}] +
                             [{'op': 'value', 'chain': 0, 'pick': k} for k in (2, 3, 4, 1)] +
                             [{'op': 'force_chain', 'chain': 0, 'picks': [1], 'recompute': True, 'delete': True}, {'op': 'flags', 'chain': 0}]))
+        # a parameter left out of the key at its default value: configs that omit it, spell the default out in another type that
+        # compares equal (1 for 1.0), or give a value of another type with the same text ('0' for 0), one after the other
+        dd = [dict(K(0, 'Model', params=[P('smoothing', default=[1.0], dropdef=True), P('flag', default=[0], dropdef=True)]), name='model'),
+              dict(K(1, 'Report', meta_inputs=[{'cls': 0}]), name='report')]
+        variants = [{'tasks': ['@M.*']}, {'tasks': ['@M.*'], 'smoothing': 1}, {'tasks': ['@M.*'], 'flag': '0'},
+                    {'tasks': ['@M.*'], 'flag': False, 'smoothing': 1.0}, {'tasks': ['@M.*'], 'flag': 'False'}]
+        dbases = [{'name': f'v{i}', 'data': v} for i, v in enumerate(variants)]
+        out.append(dict(classes=dd, files={}, base=dbases[0], context=None,
+                        ops=[x for i, b in enumerate(dbases) for x in ({'op': 'build', 'base': b}, {'op': 'value', 'chain': i, 'pick': 1},
+                                                                        {'op': 'value', 'chain': i, 'pick': 0})] +
+                            [{'op': 'restart'}] + [x for i, b in enumerate(dbases[::-1]) for x in ({'op': 'build', 'base': b}, {'op': 'value', 'chain': i, 'pick': 1})]))
         # reset_data between forcing and the next request: the value held in memory goes, the mark stays
         out.append(dict(classes=dia, files={}, base=base, context=None,
                         ops=[{'op': 'build', 'base': base}, {'op': 'value', 'chain': 0, 'pick': 2},
